@@ -70,6 +70,8 @@ def run(chk):
     c08.rule_fanout(chk)
     c10.rule_line(chk, prefix="C11")
     c10.rule_mode(chk)          # a file given the wrong kind of data rejects every write: the calls return and nothing is on disk
+    from . import c19
+    c19.rule_writer(chk)        # a log written through the threaded writer: a reader thread that dies keeps nothing of what follows
     c09.rule_never_early(chk, prefix="C11")
     c09.rule_tail(chk, prefix="C11")
     c09.rule_orderings(chk, prefix="C11")  # an ordering that raises on a truncated log loses the unfinished actions
